@@ -114,6 +114,7 @@ def registered_pass(ctx, rec):
             head, tail = hist[:-6], hist[-6:]
             rng.shuffle(head)
             seen = set()
+            ev0 = len(rec.events)
             for nm, f, kss, kind in head + tail:
                 mvs = [MultiVector.fromkeysvalues(alg, k, values_of(kind, len(k), rng, 'abc'[i])) for i, k in enumerate(kss)]
                 before = len(rec.events)
@@ -130,6 +131,42 @@ def registered_pass(ctx, rec):
                 if not first and new:
                     ctx.violation('regenerated', case, 'no generation/compile/wrap event for a cached pattern of a registered function',
                                   [list(map(str, e))[:3] for e in new[:6]], key=f'regenerated:registered:{"symbolic" if symbolic else "tape"}:{new[0][0]}')
+            # over the whole history of this algebra no function is handed to the wrapper (the compile step) twice - also not the
+            # built-in operator functions that registered expressions refer to while they are recorded
+            from collections import Counter
+            wraps = Counter(ev for ev in rec.events[ev0:] if ev[0] == 'wrap')
+            names_twice = {ev[1]: n for ev, n in wraps.items() if n > 1}
+            # two different registered functions may share a __name__ (comb#1 / comb#2): those names are expected twice
+            names_twice = {k: v for k, v in names_twice.items() if not k.startswith('comb')}
+            ctx.case({'sig': sig, 'wrapper': use_wrapper, 'symbolic_route': symbolic, 'check': 'each function wrapped at most once'}, tag='registered-wrap-once')
+            if names_twice:
+                ctx.violation('generated-twice', {'sig': sig, 'wrapper': use_wrapper, 'symbolic_route': symbolic, 'functions_wrapped_more_than_once': dict(list(names_twice.items())[:5])},
+                              'at most once', max(names_twice.values()), key='twice:wrap:registered-history')
+            # a numerically registered function called later with SYMBOLIC operands of the same key patterns: served by the compiled
+            # function - the python body is not run again and nothing is generated
+            if not symbolic:
+                runs = {'n': 0}
+                def counted(x, y):
+                    runs['n'] += 1
+                    return x * y + (x | y)
+                rc_ = alg.register(counted)
+                kx, ky = (1, 2, 4), (1, 2)
+                rc_(MultiVector.fromkeysvalues(alg, kx, [1.0, 2.0, 3.0]), MultiVector.fromkeysvalues(alg, ky, [2.0, 5.0]))
+                n0 = runs['n']
+                for rep in range(3):
+                    before = len(rec.events)
+                    try:
+                        rc_(alg.multivector(name='s', keys=kx), MultiVector.fromkeysvalues(alg, ky, [2.0, 5.0]) if rep % 2 else alg.multivector(name='t', keys=ky))
+                    except Exception:
+                        pass
+                    new = rec.events[before:]
+                    case = {'sig': sig, 'wrapper': use_wrapper, 'function': 'counted', 'later_call': 'symbolic operands, same key patterns', 'repetition': rep,
+                            'body_runs_since_first_call': runs['n'] - n0}
+                    ctx.case(case, nontrivial=True, tag='registered-repeat:symbolic-operands')
+                    if new or runs['n'] != n0:
+                        ctx.violation('regenerated', case, 'no event and no re-run of the python body', [list(map(str, e))[:3] for e in new[:4]] or f'body ran {runs["n"] - n0} more time(s)',
+                                      key='regenerated:registered:symbolic-operands')
+                        break
 
 
 def odd_keys_pass(ctx, rec):
